@@ -54,7 +54,7 @@ def parse_output(text, py):
             co = re.findall(r'Variable\("([^"]*)", (%s)(?:,(%s), 0\., 1000\.)?\)' % (NUM, NUM), b)
             d["amps"].append({"name": nm.group(1) if nm else None,
                               "coeffs": [[c[0], fnum(c[1]), fnum(c[2]) if c[2] else None] for c in co[-2:]] if len(co) >= 2 else co,
-                              "fixed": [c[2] == "" for c in co[-2:]], "sfs": sfs, "lss": [l[:5] for l in lss], "extra": [l[5] for l in lss], "n": n})
+                              "fixed": [c[2] == "" for c in co[-2:]], "sfs": sfs, "lss": [l[:5] + l[6:8] for l in lss], "extra": [l[5] for l in lss], "n": n})
     else:
         m = re.search(r"^\s+// Event type: (.*)$", text, re.M)
         d["event"] = m.group(1).strip() if m else None
@@ -75,7 +75,7 @@ def parse_output(text, py):
             co = re.findall(r'mkvar\("([^"]*)", (true|false), (%s), (%s)\)' % (NUM, NUM), b)
             d["amps"].append({"name": nm.group(1) if nm else None,
                               "coeffs": [[c[0], fnum(c[2]), fnum(c[3]) if c[1] == "false" else None] for c in co],
-                              "fixed": [c[1] == "true" for c in co], "sfs": sfs, "lss": [l[:5] for l in lss], "extra": [l[5] for l in lss], "n": n})
+                              "fixed": [c[1] == "true" for c in co], "sfs": sfs, "lss": [l[:5] + l[6:8] for l in lss], "extra": [l[5] for l in lss], "n": n})
     return d
 
 
@@ -242,6 +242,11 @@ def run(ctx):
         path = os.path.join(tmp, f"knots{j}.txt")
         open(path, "w").write(A.render_amp(doc))
         files.append((path, doc, "generated:knots-vs-bins"))
+
+    for j, (doc, ev) in enumerate(A.other_family_docs()):
+        path = os.path.join(tmp, f"family{j}.txt")
+        open(path, "w").write(A.render_amp(doc))
+        files.append((path, doc, "generated:other-families"))
 
     def check_one(path, doc, label, ctext, ptext, step):
         case = {"kind": "convert", "label": label, "file": open(path).read() if label != "shipped" else "models/DtoKpipipi_v2.txt", "step": step}
